@@ -12,6 +12,15 @@ import StraxModel.Lemmas.LineageJson
   All theorems below are about `Rules.fixed`, the rules of the code as it is now; the
   `…_counterexample_…` theorems show by evaluation that each of the four earlier rules breaks the
   corresponding statement.
+
+  Scope of the model (hence of every theorem here; restrictions that cut into the property's
+  quantifier are named in the docstrings): plugin graphs with single- and multi-output plugins,
+  child plugins, tracked / untracked / shared / default-less options; two contexts on ONE
+  DataDirectory, one run id, `save_when = ALWAYS` for every output, `set_config` in mode `update`,
+  `new_context()` without arguments, no per-run defaults.  "The same" option value / provenance
+  always means the same under `hashablize` (tuple = list, a dict = the tuple of its sorted items,
+  `{}` = `()`): that is the identity strax's keys have (observation O1 in notes/C02.md).
+  Provenance records tracked options only (assumption A-untracked).
 -/
 namespace Strax.C02
 open Strax Strax.Lineage
@@ -70,7 +79,7 @@ ancestor-or-self contributes the same tracked part.  Hence a change of a tracked
 version or of the providing class of `a` changes the key of `a` and of all its descendants, and
 of nothing else (`tracked_change_hits_descendants`, `registration_only_hits_descendants`,
 `option_change_only_hits_descendants_of_takers`). -/
-theorem lineage_changes_iff {r r' : Registry} {c c' : Config}
+theorem lineage_changes_iff {r r' : Registry} (hw : r.WF) (hw' : r'.WF) {c c' : Config}
     {n n' : Nat} {d : String} {L L' : Lineage}
     (h : lineage r c n d = .ok L) (h' : lineage r' c' n' d = .ok L') :
     lineageCanon L = lineageCanon L' ↔
@@ -82,10 +91,10 @@ theorem lineage_changes_iff {r r' : Registry} {c c' : Config}
   · intro hl
     have key : ∀ a, (if a ∈ ancestors r n d then ownEntryOf r c a else none).map centry =
         (if a ∈ ancestors r' n' d then ownEntryOf r' c' a else none).map centry := by
-      intro a; rw [← lineage_lookup h a, ← lineage_lookup h' a]; exact hl a
+      intro a; rw [← lineage_lookup hw h a, ← lineage_lookup hw' h' a]; exact hl a
     refine ⟨fun a => ⟨fun ha => ?_, fun ha => ?_⟩, fun a ha => ?_⟩
     · have := key a
-      have hs := ownEntryOf_isSome_of_mem h ha
+      have hs := ownEntryOf_isSome_of_mem hw h ha
       by_cases hb : a ∈ ancestors r' n' d
       · exact hb
       · rw [if_pos ha, if_neg hb] at this
@@ -93,7 +102,7 @@ theorem lineage_changes_iff {r r' : Registry} {c c' : Config}
         | none => simp [e] at hs
         | some v => simp [e] at this
     · have := key a
-      have hs := ownEntryOf_isSome_of_mem h' ha
+      have hs := ownEntryOf_isSome_of_mem hw' h' ha
       by_cases hb : a ∈ ancestors r n d
       · exact hb
       · rw [if_pos ha, if_neg hb] at this
@@ -101,7 +110,7 @@ theorem lineage_changes_iff {r r' : Registry} {c c' : Config}
         | none => simp [e] at hs
         | some v => simp [e] at this
     · have := key a
-      have hs := ownEntryOf_isSome_of_mem h ha
+      have hs := ownEntryOf_isSome_of_mem hw h ha
       by_cases hb : a ∈ ancestors r' n' d
       · rw [if_pos ha, if_pos hb] at this; exact this
       · rw [if_pos ha, if_neg hb] at this
@@ -109,66 +118,184 @@ theorem lineage_changes_iff {r r' : Registry} {c c' : Config}
         | none => simp [e] at hs
         | some v => simp [e] at this
   · rintro ⟨hanc, htr⟩ a
-    rw [lineage_lookup h a, lineage_lookup h' a]
+    rw [lineage_lookup hw h a, lineage_lookup hw' h' a]
     by_cases ha : a ∈ ancestors r n d
     · rw [if_pos ha, if_pos ((hanc a).mp ha)]; exact htr a ha
     · rw [if_neg ha, if_neg (fun hb => ha ((hanc a).mpr hb))]
 
 /-- the same statement about keys -/
-theorem key_changes_iff {H : String → K} (hH : Function.Injective H) {r r' : Registry} {c c' : Config}
-    {n n' : Nat} {d : String} {L L' : Lineage}
+theorem key_changes_iff {H : String → K} (hH : Function.Injective H) {r r' : Registry} (hw : r.WF) (hw' : r'.WF)
+    {c c' : Config} {n n' : Nat} {d : String} {L L' : Lineage}
     (h : lineage r c n d = .ok L) (h' : lineage r' c' n' d = .ok L') :
     keyOf H L ≠ keyOf H L' ↔
       ¬ ((∀ a, a ∈ ancestors r n d ↔ a ∈ ancestors r' n' d) ∧
          ∀ a ∈ ancestors r n d, trackedPart r c a = trackedPart r' c' a) := by
-  rw [← lineage_changes_iff h h']
+  rw [← lineage_changes_iff hw hw' h h']
   constructor
   · intro hk he; exact hk (by unfold keyOf; rw [he])
   · intro hk he; exact hk (hashInj_of_injective hH _ _ he)
 
 /-- A change in the tracked part of `a` (tracked option value, version, class name) changes the
 key of every data type `d` that has `a` among its ancestors-or-self. -/
-theorem tracked_change_hits_descendants {H : String → K} (hH : Function.Injective H) {r r' : Registry} {c c' : Config}
-    {n n' : Nat} {d a : String} {L L' : Lineage}
+theorem tracked_change_hits_descendants {H : String → K} (hH : Function.Injective H) {r r' : Registry}
+    (hw : r.WF) (hw' : r'.WF) {c c' : Config} {n n' : Nat} {d a : String} {L L' : Lineage}
     (h : lineage r c n d = .ok L) (h' : lineage r' c' n' d = .ok L')
     (ha : a ∈ ancestors r n d) (hdiff : trackedPart r c a ≠ trackedPart r' c' a) :
     keyOf H L ≠ keyOf H L' :=
-  (key_changes_iff hH h h').mpr fun hh => hdiff (hh.2 a ha)
+  (key_changes_iff hH hw hw' h h').mpr fun hh => hdiff (hh.2 a ha)
 
-/-- (Re-)registering a class for data type `t` leaves the lineage — hence the key — of every data
-type that does not descend from `t` exactly as it was. -/
+/-- **A tracked option shows.**  If the plugin behind lineage key `a` takes `o` as a tracked option
+(for a child plugin: `o` is not an option it overwrites in its parent, nor the name of a base
+class) and the two configs give `o` values that hash differently, then every data type that has
+`a` among its lineage keys — the outputs of that plugin and all their descendants — gets a
+different key. -/
+theorem tracked_option_change_changes_key {H : String → K} (hH : Function.Injective H) {r : Registry} (hw : r.WF)
+    {c c' : Config} (hc : NodupKeys c) (hc' : NodupKeys c') {n n' : Nat} {d a o : String} {L L' : Lineage}
+    {cls : PluginClass} {v v' : Val}
+    (h : lineage r c n d = .ok L) (h' : lineage r c' n' d = .ok L') (ha : a ∈ ancestors r n d)
+    (hcls : r.lookup a = some cls)
+    (hk : (if cls.child then keptChild cls o else isTracked cls o) = true)
+    (hb : cls.child = true → ∀ b ∈ cls.bases, b.1 ≠ o)
+    (hv : c.lookup o = some v) (hv' : c'.lookup o = some v') (hne : canon v ≠ canon v') :
+    keyOf H L ≠ keyOf H L' := by
+  apply tracked_change_hits_descendants hH hw hw h h' ha
+  intro heq
+  have hs := ownEntryOf_isSome_of_mem hw h ha
+  have ha' : a ∈ ancestors r n' d := by
+    -- same registry: the lineage keys of `d` do not depend on the fuel once the lineage is defined
+    have e1 : a ∈ ancestors r (fuelOf r) d := by
+      have := lineage_lookup hw h a
+      have h2 := lineage_lookup hw (lineage_fuel h) a
+      rw [this] at h2
+      by_cases hm : a ∈ ancestors r (fuelOf r) d
+      · exact hm
+      · rw [if_pos ha, if_neg hm] at h2
+        cases e : ownEntryOf r c a with
+        | none => simp [e] at hs
+        | some x => simp [e] at h2
+    have h3 := lineage_lookup hw h' a
+    have h4 := lineage_lookup hw (lineage_fuel h') a
+    rw [h3] at h4
+    by_cases hm : a ∈ ancestors r n' d
+    · exact hm
+    · rw [if_neg hm, if_pos e1] at h4
+      have hs' := ownEntryOf_isSome_of_mem hw (lineage_fuel h') e1
+      cases e : ownEntryOf r c' a with
+      | none => simp [e] at hs'
+      | some x => simp [e] at h4
+  have hs' := ownEntryOf_isSome_of_mem hw h' ha'
+  unfold trackedPart ownEntryOf at heq
+  unfold ownEntryOf at hs hs'
+  simp only [hcls] at heq hs hs'
+  cases hp : pluginConfig cls c with
+  | error e => simp [hp] at hs
+  | ok pc =>
+    cases hp' : pluginConfig cls c' with
+    | error e => simp [hp'] at hs'
+    | ok pc' =>
+      simp only [hp, hp', Option.map_some, Option.some.injEq] at heq
+      rw [centry_eq_iff (entryConfig_nodup cls (pluginConfig_nodup hc hp))
+        (entryConfig_nodup cls (pluginConfig_nodup hc' hp'))] at heq
+      have := heq.2.2 o
+      unfold CfgEqAt at this
+      simp only at this
+      rw [entryConfig_tracked_value hp hk hb, entryConfig_tracked_value hp' hk hb,
+        lookup_withDefaults, lookup_withDefaults, hv, hv'] at this
+      simp at this
+      exact hne this
+
+/-- **Version and providing class show.**  If the plugins behind lineage key `a` in the two
+registries differ in version or in class name, every data type with `a` among its lineage keys
+gets a different key. -/
+theorem version_or_class_change_changes_key {H : String → K} (hH : Function.Injective H) {r r' : Registry}
+    (hw : r.WF) (hw' : r'.WF) {c c' : Config} (hc : NodupKeys c) (hc' : NodupKeys c') {n n' : Nat} {d a : String}
+    {L L' : Lineage} {cls cls' : PluginClass}
+    (h : lineage r c n d = .ok L) (h' : lineage r' c' n' d = .ok L') (ha : a ∈ ancestors r n d)
+    (hcls : r.lookup a = some cls) (hcls' : r'.lookup a = some cls')
+    (hdiff : cls.version ≠ cls'.version ∨ cls.name ≠ cls'.name) : keyOf H L ≠ keyOf H L' := by
+  rw [key_changes_iff hH hw hw' h h']
+  rintro ⟨hanc, htr⟩
+  have ha' := (hanc a).mp ha
+  have hs := ownEntryOf_isSome_of_mem hw h ha
+  have hs' := ownEntryOf_isSome_of_mem hw' h' ha'
+  have heq := htr a ha
+  unfold trackedPart ownEntryOf at heq
+  unfold ownEntryOf at hs hs'
+  simp only [hcls, hcls'] at heq hs hs'
+  cases hp : pluginConfig cls c with
+  | error e => simp [hp] at hs
+  | ok pc =>
+    cases hp' : pluginConfig cls' c' with
+    | error e => simp [hp'] at hs'
+    | ok pc' =>
+      simp only [hp, hp', Option.map_some, Option.some.injEq] at heq
+      rw [centry_eq_iff (entryConfig_nodup cls (pluginConfig_nodup hc hp))
+        (entryConfig_nodup cls' (pluginConfig_nodup hc' hp'))] at heq
+      rcases hdiff with e | e
+      · exact e heq.2.1
+      · exact e heq.1
+
+/-- `register(cls)` leaves the lineage — hence the key — of `d` exactly as it was when neither `d`
+nor any data type it (transitively) depends on is an output of `cls` or of a class that shares an
+output with `cls` (the classes `register` deregisters): only the outputs of the registered /
+deregistered plugins and their descendants can change. -/
 theorem registration_only_hits_descendants {r : Registry} {c : Config} {n : Nat} {d : String} {L : Lineage}
-    (cls : PluginClass) (h : lineage r c n d = .ok L) (ht : cls.provides ∉ ancestors r n d) :
+    (cls : PluginClass) (h : lineage r c n d = .ok L)
+    (ht : ∀ x ∈ visited r n d, cls.makes x = false ∧ ∀ k, r.lookup x = some k → k.overlaps cls = false) :
     lineage (r.set cls) c n d = .ok L :=
-  lineage_agree (fun a ha => by
-    rw [Registry.lookup_set]
-    have : a ≠ cls.provides := fun e => ht (e ▸ ha)
-    simp [this]) h
+  lineage_agree (fun x hx => Registry.lookup_set_other (ht x hx).1 (fun k hk => Or.inl ((ht x hx).2 k hk))) h
 
 /-- Changing the value of option `o` changes no key of a data type none of whose ancestors-or-self
 takes `o` as a tracked option; in particular an option that is untracked everywhere changes no
 key at all (`untracked_changes_no_key`). -/
-theorem option_change_only_hits_descendants_of_takers (H : String → K) {r : Registry} {c c' : Config}
+theorem option_change_only_hits_descendants_of_takers (H : String → K) {r : Registry} (hw : r.WF) {c c' : Config}
     (hc : NodupKeys c) (hc' : NodupKeys c') {o : String} (hcc : ∀ k, k ≠ o → CfgEqAt c c' k)
     {n : Nat} {d : String} {L L' : Lineage}
     (h : lineage r c n d = .ok L) (h' : lineage r c' n d = .ok L')
     (hun : ∀ a ∈ ancestors r n d, ∀ cls, r.lookup a = some cls → ∀ opt ∈ cls.options, opt.name = o → opt.track = false) :
     keyOf H L = keyOf H L' := by
   have : lineageCanon L = lineageCanon L' := by
-    rw [lineage_changes_iff h h']
+    rw [lineage_changes_iff hw hw h h']
     refine ⟨fun a => Iff.rfl, fun a ha => ?_⟩
-    exact trackedPart_congr_off hc hc' hcc (ownEntryOf_isSome_of_mem h ha) (ownEntryOf_isSome_of_mem h' ha)
+    exact trackedPart_congr_off hc hc' hcc (ownEntryOf_isSome_of_mem hw h ha) (ownEntryOf_isSome_of_mem hw h' ha)
       (fun cls hcls => hun a ha cls hcls)
   unfold keyOf; rw [this]
 
-theorem untracked_changes_no_key (H : String → K) {r : Registry} {c : Config} (hc : NodupKeys c) (o : String) (v : Val)
+theorem untracked_changes_no_key (H : String → K) {r : Registry} (hw : r.WF) {c : Config} (hc : NodupKeys c) (o : String) (v : Val)
     (hun : ∀ cls ∈ r, ∀ opt ∈ cls.options, opt.name = o → opt.track = false)
     {n : Nat} {d : String} {L L' : Lineage}
     (h : lineage r c n d = .ok L) (h' : lineage r (dictSet c o v) n d = .ok L') :
     keyOf H L = keyOf H L' :=
-  option_change_only_hits_descendants_of_takers H hc (hc.dictSet o v)
+  option_change_only_hits_descendants_of_takers H hw hc (hc.dictSet o v)
     (fun k hk => by unfold CfgEqAt; rw [lookup_dictSet]; simp [hk]) h h'
-    (fun _ _ cls hcls => hun cls (Registry.lookup_provides hcls).2)
+    (fun _ _ cls hcls => hun cls (Registry.lookup_mem hcls).2)
+
+/-! ## auto-inferred versions -/
+
+/-- **Editing the code changes an auto-inferred version.**  `Plugin._auto_version` hashes the
+hashes of the source texts of *all* attributes of the class; with an injective hash two classes
+that differ in the source of any attribute (or in which attributes they have) get different
+versions — and then `version_or_class_change_changes_key` applies. -/
+theorem auto_version_changes {H : String → String} (hH : Function.Injective H) {attrs attrs' : List (String × String)}
+    (hn : NodupKeys attrs) (hn' : NodupKeys attrs') {a : String} (hdiff : attrs.lookup a ≠ attrs'.lookup a) :
+    autoVersion H attrs ≠ autoVersion H attrs' := by
+  intro heq
+  unfold autoVersion at heq
+  have h1 := String.toList_inj.mpr heq
+  rw [String.toList_append, String.toList_append] at h1
+  have h2 := String.toList_inj.mp (List.append_cancel_left h1)
+  have h3 := canonString_injective (hH h2)
+  have n1 : NodupKeys (attrs.map fun a => (a.1, Val.str (H (canonString (.str a.2))))) := by
+    unfold NodupKeys; rw [keys_map_val (fun s => Val.str (H (canonString (.str s))))]; exact hn
+  have n2 : NodupKeys (attrs'.map fun a => (a.1, Val.str (H (canonString (.str a.2))))) := by
+    unfold NodupKeys; rw [keys_map_val (fun s => Val.str (H (canonString (.str s))))]; exact hn'
+  have h4 := (canon_dict_eq_iff n1 n2).mp h3 a
+  rw [lookup_map_val (fun s => Val.str (H (canonString (.str s)))), lookup_map_val (fun s => Val.str (H (canonString (.str s)))),
+    Option.map_map, Option.map_map] at h4
+  apply hdiff
+  cases e1 : attrs.lookup a <;> cases e2 : attrs'.lookup a <;> simp [e1, e2, canon, canonWith] at h4 ⊢
+  have h5 := canonString_injective (hH h4)
+  injection h5
 
 /-! ## fuzzy matching -/
 
@@ -181,12 +308,12 @@ theorem LineageOK.wf {L : Lineage} (h : LineageOK L) : LineageWF L :=
   ⟨h.1, fun t e hl => h.2 (t, e) (lookup_mem hl)⟩
 
 /-- every lineage the model builds from a dict-shaped config is of that form -/
-theorem lineage_ok {r : Registry} {c : Config} (hc : NodupKeys c) {n : Nat} {d : String} {L : Lineage}
+theorem lineage_ok {r : Registry} (hw : r.WF) {c : Config} (hc : NodupKeys c) {n : Nat} {d : String} {L : Lineage}
     (h : lineage r c n d = .ok L) : LineageOK L := by
   refine ⟨lineage_nodupKeys h, ?_⟩
   intro ⟨a, e⟩ hm
   have hl := mem_lookup (lineage_nodupKeys h) hm
-  rw [lineage_lookup h a] at hl
+  rw [lineage_lookup hw h a] at hl
   split at hl
   · unfold ownEntryOf at hl
     split at hl
@@ -206,7 +333,7 @@ example : LineageOK [("aa", ⟨"A", "1", [("x", .int 1), ("y", .seq true [.int 1
 `fuzzy_for`, both lineages have the same data types with the same class and version, and outside
 the options named in `fuzzy_for_options` the same option values (as `hashablize` sees them). -/
 theorem fuzzy_match_iff {stored want : Lineage} {ff ffo : List String} (hs : LineageOK stored) (hw : LineageOK want) :
-    fuzzyMatches true stored want ff ffo = true ↔
+    fuzzyMatches .textEq stored want ff ffo = true ↔
       ∀ t, t ∉ ff →
         match stored.lookup t, want.lookup t with
         | none, none => True
@@ -219,7 +346,52 @@ back from JSON, tuples have become lists) never matched when any remaining optio
 theorem fuzzy_match_counterexample_old :
     let stored : Lineage := [("aa", ⟨"A", "1", [("x", .int 1), ("y", .seq true [.int 1, .int 2])]⟩)]
     let want : Lineage := [("aa", ⟨"A", "1", [("x", .int 2), ("y", .seq true [.int 1, .int 2])]⟩)]
-    fuzzyMatches false stored want [] ["x"] = false ∧ fuzzyMatches true stored want [] ["x"] = true := by decide
+    fuzzyMatches .pyEqVals stored want [] ["x"] = false ∧ fuzzyMatches .textEq stored want [] ["x"] = true := by decide
+
+/-- After the first fix the `hashablize`d lineages were compared with Python `==`, under which
+`1 == True == 1.0`: a stored `ax = 1` was accepted for a wanted `ax = True` although `ax` is not
+among the ignored options and the two keys differ.  Now the `deterministic_hash`es are compared. -/
+theorem fuzzy_match_counterexample_pyeq_canon :
+    let stored : Lineage := [("aa", ⟨"A", "1", [("ax", .int 1), ("ay", .int 0)]⟩)]
+    let want : Lineage := [("aa", ⟨"A", "1", [("ax", .bool true), ("ay", .int 0)]⟩)]
+    fuzzyMatches .pyEqCanon stored want [] ["ay"] = true ∧ fuzzyMatches .textEq stored want [] ["ay"] = false ∧
+      lineageCanon stored ≠ lineageCanon want := by decide
+
+/-- What `_find` answers, at the level of the directory: some entry of that data type is found iff
+one is filed under exactly the wanted key, or — with fuzzy matching on — one fuzzy-matches
+(`fuzzy_match_iff` says when).  `is_stored` and the load-or-compute decision of `get_array` are
+this test applied to the lineage of the (cached) plugin. -/
+theorem find_iff (rules : Rules) (H : String → K) (s : List (Item K)) (d : String) (want : Lineage) (ff ffo : List String) :
+    (findItem rules H s d want ff ffo).isSome = true ↔
+      (∃ it ∈ s, it.dataType = d ∧ it.key = keyOf H want) ∨
+      ((ff ≠ [] ∨ ffo ≠ []) ∧ ∃ it ∈ s, it.dataType = d ∧ fuzzyMatches rules.matchRule it.lineage want ff ffo = true) := by
+  unfold findItem
+  cases h1 : s.find? (fun it => it.dataType == d && decide (it.key = keyOf H want)) with
+  | some it =>
+    have hp := List.find?_some h1
+    simp only [Bool.and_eq_true, beq_iff_eq, decide_eq_true_eq] at hp
+    simp only [Option.isSome_some, true_iff]
+    exact Or.inl ⟨it, List.mem_of_find?_eq_some h1, hp.1, hp.2⟩
+  | none =>
+    have hnone : ¬ ∃ it ∈ s, it.dataType = d ∧ it.key = keyOf H want := by
+      rintro ⟨it, hm, e1, e2⟩
+      have := List.find?_eq_none.mp h1 it hm
+      simp [e1, e2] at this
+    simp only
+    by_cases hf : (ff.isEmpty && ffo.isEmpty) = true
+    · have h2 := Bool.and_eq_true_iff.mp hf
+      have e1 : ff = [] := List.isEmpty_iff.mp h2.1
+      have e2 : ffo = [] := List.isEmpty_iff.mp h2.2
+      simp [hnone, e1, e2]
+    · have hne : ff ≠ [] ∨ ffo ≠ [] := by
+        cases ff <;> cases ffo <;> simp at hf ⊢
+      simp only [hf, Bool.false_eq_true, if_false, List.find?_isSome, Bool.and_eq_true, beq_iff_eq]
+      constructor
+      · rintro ⟨it, hm, e1, e2⟩
+        exact Or.inr ⟨hne, it, hm, e1, e2⟩
+      · rintro (hx | ⟨_, it, hm, e1, e2⟩)
+        · exact absurd hx hnone
+        · exact ⟨it, hm, e1, e2⟩
 
 /-- A context with fuzzy matching switched on never writes to the directory, whatever it is
 asked to do (any rules). -/
@@ -231,9 +403,15 @@ theorem fuzzy_never_saves (rules : Rules) (H : String → K) (ctx : Ctx K) (s : 
 
 /-- **No stale read.**  After any history of set_config / register / new_context / fuzzy settings /
 lineage / is_stored / make / get_array issued to two contexts that share one directory, a context
-whose fuzzy matching is off returns from `get_array d` rows of exactly the provenance a brand-new
+whose fuzzy matching is off returns from `get_array d` rows of the same provenance as a brand-new
 context with the same registry and config computes on an empty directory — whenever that
-brand-new context can compute `d` at all. -/
+brand-new context can compute `d` at all (it cannot when a required option has neither value nor
+default; then rows another context stored may still be served: observation O4 / assumption A-O4).
+"The same provenance" = same class, version and tracked option values *as `hashablize` sees them*
+(tuple = list, `{}` = `()`: O1) of the plugin and all its ancestors; untracked options are not
+part of provenance (assumption A-untracked).  Scope: see the header (one directory, one run id,
+`save_when = ALWAYS`, `set_config` mode `update`, `new_context()` without arguments); plugin
+graphs may contain multi-output and child plugins. -/
 theorem no_stale_read {H : String → K} (hH : Function.Injective H) (ops : List Op) (who : Bool) (d : String) :
     let s := (run Rules.fixed H State.init ops).2
     (s.ctx who).fuzzy = false →
@@ -265,9 +443,9 @@ theorem no_stale_read {H : String → K} (hH : Function.Injective H) (ops : List
 example : Function.Injective (fun s : String => s) := fun _ _ h => h
 
 def clsP (default : Int) : PluginClass :=
-  ⟨"P", "1", "aa", [], [⟨"x", some (.int default), true, none⟩], false, [], "blosc", 80⟩
+  ⟨"P", "1", "aa", [], [⟨"x", some (.int default), true, none⟩], false, [], "blosc", 80, []⟩
 def clsQ : PluginClass :=
-  ⟨"Q", "1", "bb", ["aa"], [⟨"y", some (.int 0), true, none⟩, ⟨"u", some (.int 0), false, none⟩], false, [], "blosc", 80⟩
+  ⟨"Q", "1", "bb", ["aa"], [⟨"y", some (.int 0), true, none⟩, ⟨"u", some (.int 0), false, none⟩], false, [], "blosc", 80, []⟩
 
 /-- register P(default 1); make; register P'(default 2) — the history of defect D4 -/
 def d4History : List Op :=
@@ -292,8 +470,26 @@ theorem no_stale_read_counterexample_old :
         (run Rules.old id State.init d4History).2.main.config) ⟨false, .get "aa"⟩).1 =
       .data [("aa", ⟨"P", "1", [("x", .int 2)]⟩)] false := by decide
 
+/-- a plugin with two outputs (lineage key `bb`) and a consumer of its first output -/
+def clsM (default : Int) : PluginClass :=
+  ⟨"M", "1", "bb", [], [⟨"mx", some (.int default), true, none⟩], false, [], "blosc", 80, ["aa"]⟩
+def clsQa : PluginClass := ⟨"Qa", "1", "qq", ["aa"], [], false, [], "blosc", 80, []⟩
+
+example : Registry.WF [clsM 1, clsQa] := by decide
+
+-- multi-output version of the D4 history: register M(aa,bb) default 1; make qq(aa); re-register with default 2
+example :
+    (step Rules.fixed id (run Rules.fixed id State.init
+        [⟨false, .register (clsM 1)⟩, ⟨false, .register clsQa⟩, ⟨false, .make "qq"⟩, ⟨false, .register (clsM 2)⟩]).2
+      ⟨false, .get "qq"⟩).1 =
+      .data [("qq", ⟨"Qa", "1", []⟩), ("bb", ⟨"M", "1", [("mx", .int 2)]⟩)] false := by decide
+
+-- a class providing (bb, cc) takes `bb` over: `aa` is deregistered with it
+example : Registry.lookup (Registry.set [clsM 1, clsQa]
+    ⟨"N", "1", "cc", [], [], false, [], "blosc", 80, ["bb"]⟩) "aa" = none := by decide
+
 /-- class of data type `aa` taking a tracked option that is itself called `aa` -/
-def clsA : PluginClass := ⟨"A", "1", "aa", [], [⟨"aa", some (.int 1), true, none⟩], false, [], "blosc", 80⟩
+def clsA : PluginClass := ⟨"A", "1", "aa", [], [⟨"aa", some (.int 1), true, none⟩], false, [], "blosc", 80, []⟩
 
 def optNamedLikeTypeHistory : List Op :=
   [⟨false, .register clsA⟩, ⟨false, .get "aa"⟩, ⟨false, .setConfig [("aa", .int 2)]⟩]
